@@ -620,12 +620,24 @@ class Executor(Engine, ExprMixin, StmtMixin, CallMixin):
 
     def verify(self, c):
         """Generate all obligations for contract c against the real function body."""
-        f = resolve_function(c.qual)
-        if f is None or not isinstance(f, types.FunctionType):
-            raise EngineError('function %s not found in the working tree' % c.qual)
-        f = inspect.unwrap(f)
-        fnode = func_ast(f)
-        mod = inspect.getmodule(f)
+        if c.qual.startswith('c:'):
+            from . import cfront, cruntime
+            fnode = cfront.translate(c.cfile, c.qual[2:], getattr(c.module, 'C_CONSTANTS', None))
+            mod = types.ModuleType('c_translation_unit')
+            for k2, v2 in vars(cruntime).items():
+                if k2.startswith('__') and not k2.endswith('__') or k2 in ('Cell',):
+                    setattr(mod, k2, v2)
+            for k2, v2 in vars(c.module).items():
+                if k2.startswith('G_'):
+                    setattr(mod, k2, v2)
+            self.c_mode = True
+        else:
+            f = resolve_function(c.qual)
+            if f is None or not isinstance(f, types.FunctionType):
+                raise EngineError('function %s not found in the working tree' % c.qual)
+            f = inspect.unwrap(f)
+            fnode = func_ast(f)
+            mod = inspect.getmodule(f)
         self.cur_contract = c
         st = State()
         if self.logger is None:
